@@ -1002,10 +1002,20 @@ class Engine:
             if k == "goto":
                 work.append((t["target"], env, st))
             elif k == "return":
-                memo_out = tuple(sorted((l, v) for l, v in env.items() if -1000 < l < 0))
-                rets.setdefault((self.freeze(env, env.get(0, TOP)), skey(st), memo_out), st)
-                if self.trace_returns is not None:
-                    self.trace_returns(inst_key, fn, bb, env, st)
+                r0 = env.get(0, TOP)
+                outs = [(env, st)]
+                if r0[0] == "b" and r0[1] is None and (r0[2] or r0[3]) and fn.locals[0].get("prim") == "bool":
+                    # an undecided test is the return value (it was the destination of a call): decide it here
+                    outs = []
+                    for truth in (True, False):
+                        r2 = self.apply_refs(env, st, r0[2] if truth else r0[3], (inst_key, fn, bb))
+                        if r2 is not None:
+                            outs.append((self.write(r2[0], 0, (), ("b", truth, (), ())), r2[1]))
+                for env_r, st_r in outs:
+                    memo_out = tuple(sorted((l, v) for l, v in env_r.items() if -1000 < l < 0))
+                    rets.setdefault((self.freeze(env_r, env_r.get(0, TOP)), skey(st_r), memo_out), st_r)
+                    if self.trace_returns is not None:
+                        self.trace_returns(inst_key, fn, bb, env_r, st_r)
             elif k == "switch":
                 for tgt, env2, st2 in self.switch(inst_key, fn, bb, t, env, st):
                     work.append((tgt, env2, st2))
@@ -1014,6 +1024,13 @@ class Engine:
                     if t["target"] is None:
                         continue
                     r = self.resolve(env2, t["dest"])
+                    if r == (0, ()) and ret[0] == "b" and ret[1] is None and (ret[2] or ret[3]) and fn.locals[0].get("prim") == "bool":
+                        # an undecided test lands in the return place: decide it now, while the places it speaks about are alive
+                        for truth in (True, False):
+                            r2 = self.apply_refs(env2, st2, ret[2] if truth else ret[3], (inst_key, fn, bb))
+                            if r2 is not None:
+                                work.append((t["target"], self.write(r2[0], 0, (), ("b", truth, (), ())), r2[1]))
+                        continue
                     if r is not None:
                         env2 = self.write(env2, r[0], r[1], ret)
                     work.append((t["target"], env2, st2))
